@@ -15,7 +15,10 @@ EXTENDS Integers, Sequences, FiniteSets, TLC
 
 CONSTANTS N,                \* number of members
           ExitOnException,  \* PortfolioOptions.exit_on_exception
-          DetectAllFailed   \* TRUE = repaired code (raises when nobody can answer), FALSE = pinned code
+          DetectAllFailed,  \* TRUE = repaired code (raises when nobody can answer), FALSE = pinned code
+          Rounds,           \* consecutive solve() calls on the same Portfolio object
+          FreshQueuePerSolve \* TRUE = the code: every solve() creates its own signalling queue;
+                             \* FALSE = one queue for the object's life (a loser's late message survives)
 
 Members == 1..N
 Behaviours == {"ans", "exc", "crash_pre", "crash_post"}
@@ -23,24 +26,25 @@ Behaviours == {"ans", "exc", "crash_pre", "crash_post"}
 VARIABLES beh, verdictOf,       \* member behaviour; the common verdict of answering members
           ppc,                  \* parent: "spawn" | "wait" | "kill" | "idle" | "sent" | "done" | "raised"
           cpc,                  \* member: "solving" | "parked" | "dead"
-          queue,                \* signalling queue: sequence of <<member, "res" | "exc">>
+          queue,                \* signalling queue: sequence of <<member, "res" | "exc", verdict>>
+          round,                \* number of the current solve() call
           failed,               \* number of exception messages seen by the parent
           winner, returned,     \* chosen member / verdict returned by solve (or "none")
           killIdx,              \* next member of the terminate loop
           ctrl, reply,          \* control pipe (parent -> members) and reply channel
           served                \* member that consumed the control command (0 = none)
 
-vars == <<beh, verdictOf, ppc, cpc, queue, failed, winner, returned, killIdx, ctrl, reply, served>>
+vars == <<beh, verdictOf, ppc, cpc, queue, round, failed, winner, returned, killIdx, ctrl, reply, served>>
 
 Init == /\ beh \in [Members -> Behaviours]
         /\ verdictOf \in {"sat", "unsat"}
         /\ ppc = "spawn" /\ cpc = [i \in Members |-> "solving"]
-        /\ queue = <<>> /\ failed = 0 /\ winner = 0 /\ returned = "none" /\ killIdx = 1
+        /\ queue = <<>> /\ round = 1 /\ failed = 0 /\ winner = 0 /\ returned = "none" /\ killIdx = 1
         /\ ctrl = <<>> /\ reply = <<>> /\ served = 0
 
 \* ---- parent
 Spawn == ppc = "spawn" /\ ppc' = "wait"
-         /\ UNCHANGED <<beh, verdictOf, cpc, queue, failed, winner, returned, killIdx, ctrl, reply, served>>
+         /\ UNCHANGED <<round, beh, verdictOf, cpc, queue, failed, winner, returned, killIdx, ctrl, reply, served>>
 
 QueueGet ==
     /\ ppc = "wait" /\ queue # <<>>
@@ -53,9 +57,9 @@ QueueGet ==
                     /\ UNCHANGED <<winner, returned>>
                ELSE /\ ppc' = "wait" /\ failed' = failed + 1       \* `continue`
                     /\ UNCHANGED <<cpc, winner, returned>>
-          ELSE /\ winner' = msg[1] /\ returned' = verdictOf /\ ppc' = "kill"
+          ELSE /\ winner' = msg[1] /\ returned' = msg[3] /\ ppc' = "kill"
                /\ UNCHANGED <<cpc, failed>>
-    /\ UNCHANGED <<beh, verdictOf, killIdx, ctrl, reply, served>>
+    /\ UNCHANGED <<round, beh, verdictOf, killIdx, ctrl, reply, served>>
 
 \* the repair: the blocking get has a timeout; when it expires with an empty queue and no live
 \* member, nobody can answer any more
@@ -63,53 +67,65 @@ PollDead ==
     /\ DetectAllFailed /\ ppc = "wait" /\ queue = <<>>
     /\ \A i \in Members : cpc[i] = "dead"
     /\ ppc' = "raised"
-    /\ UNCHANGED <<beh, verdictOf, cpc, queue, failed, winner, returned, killIdx, ctrl, reply, served>>
+    /\ UNCHANGED <<round, beh, verdictOf, cpc, queue, failed, winner, returned, killIdx, ctrl, reply, served>>
 
 Terminate ==    \* for p in processes: winner is kept, every other process is terminated
     /\ ppc = "kill"
     /\ IF killIdx > N THEN ppc' = "idle" /\ UNCHANGED <<cpc, killIdx>>
        ELSE /\ killIdx' = killIdx + 1 /\ ppc' = "kill"
             /\ cpc' = IF killIdx = winner THEN cpc ELSE [cpc EXCEPT ![killIdx] = "dead"]
-    /\ UNCHANGED <<beh, verdictOf, queue, failed, winner, returned, ctrl, reply, served>>
+    /\ UNCHANGED <<round, beh, verdictOf, queue, failed, winner, returned, ctrl, reply, served>>
 
 SendCtrl ==     \* get_model() / get_value() after solve returned
     /\ ppc = "idle" /\ returned = "sat"
     /\ ctrl' = Append(ctrl, "get_model") /\ ppc' = "sent"
-    /\ UNCHANGED <<beh, verdictOf, cpc, queue, failed, winner, returned, killIdx, reply, served>>
+    /\ UNCHANGED <<round, beh, verdictOf, cpc, queue, failed, winner, returned, killIdx, reply, served>>
 
 RecvReply ==
     /\ ppc = "sent" /\ reply # <<>>
     /\ reply' = Tail(reply) /\ ppc' = "done"
-    /\ UNCHANGED <<beh, verdictOf, cpc, queue, failed, winner, returned, killIdx, ctrl, served>>
+    /\ UNCHANGED <<round, beh, verdictOf, cpc, queue, failed, winner, returned, killIdx, ctrl, served>>
 
 NoModelWanted == ppc = "idle" /\ returned # "sat" /\ ppc' = "done"
-                 /\ UNCHANGED <<beh, verdictOf, cpc, queue, failed, winner, returned, killIdx, ctrl, reply, served>>
+                 /\ UNCHANGED <<round, beh, verdictOf, cpc, queue, failed, winner, returned, killIdx, ctrl, reply, served>>
+
+\* the next solve() on the same object: _close_existing() terminates the kept process, the assertions
+\* may have changed (the verdict is chosen afresh), new member processes are started
+Resolve ==
+    /\ ppc = "done" /\ round < Rounds
+    /\ round' = round + 1 /\ ppc' = "spawn"
+    /\ verdictOf' \in {"sat", "unsat"}
+    /\ cpc' = [i \in Members |-> "solving"]
+    /\ queue' = IF FreshQueuePerSolve THEN <<>> ELSE queue
+    /\ failed' = 0 /\ winner' = 0 /\ returned' = "none" /\ killIdx' = 1
+    /\ ctrl' = <<>> /\ reply' = <<>> /\ served' = 0
+    /\ UNCHANGED beh
 
 \* ---- members
 PutResult(i) ==
     /\ cpc[i] = "solving" /\ beh[i] \in {"ans", "crash_post"}
-    /\ queue' = Append(queue, <<i, "res">>)
+    /\ queue' = Append(queue, <<i, "res", verdictOf>>)
     /\ cpc' = [cpc EXCEPT ![i] = IF beh[i] = "ans" THEN "parked" ELSE "dead"]
-    /\ UNCHANGED <<beh, verdictOf, ppc, failed, winner, returned, killIdx, ctrl, reply, served>>
+    /\ UNCHANGED <<round, beh, verdictOf, ppc, failed, winner, returned, killIdx, ctrl, reply, served>>
 
 PutException(i) ==
     /\ cpc[i] = "solving" /\ beh[i] = "exc"
-    /\ queue' = Append(queue, <<i, "exc">>)
+    /\ queue' = Append(queue, <<i, "exc", verdictOf>>)
     /\ cpc' = [cpc EXCEPT ![i] = "dead"]
-    /\ UNCHANGED <<beh, verdictOf, ppc, failed, winner, returned, killIdx, ctrl, reply, served>>
+    /\ UNCHANGED <<round, beh, verdictOf, ppc, failed, winner, returned, killIdx, ctrl, reply, served>>
 
 Crash(i) ==
     /\ cpc[i] = "solving" /\ beh[i] = "crash_pre"
     /\ cpc' = [cpc EXCEPT ![i] = "dead"]
-    /\ UNCHANGED <<beh, verdictOf, ppc, queue, failed, winner, returned, killIdx, ctrl, reply, served>>
+    /\ UNCHANGED <<round, beh, verdictOf, ppc, queue, failed, winner, returned, killIdx, ctrl, reply, served>>
 
 RecvCmd(i) ==   \* any parked member may read the shared pipe
     /\ cpc[i] = "parked" /\ ctrl # <<>>
     /\ ctrl' = Tail(ctrl) /\ served' = i
     /\ reply' = Append(reply, i)
-    /\ UNCHANGED <<beh, verdictOf, ppc, cpc, queue, failed, winner, returned, killIdx>>
+    /\ UNCHANGED <<round, beh, verdictOf, ppc, cpc, queue, failed, winner, returned, killIdx>>
 
-Next == Spawn \/ QueueGet \/ PollDead \/ Terminate \/ SendCtrl \/ RecvReply \/ NoModelWanted
+Next == Spawn \/ QueueGet \/ PollDead \/ Terminate \/ SendCtrl \/ RecvReply \/ NoModelWanted \/ Resolve
         \/ \E i \in Members : PutResult(i) \/ PutException(i) \/ Crash(i) \/ RecvCmd(i)
 
 Spec == Init /\ [][Next]_vars /\ WF_vars(Next)
@@ -119,7 +135,8 @@ SomeoneAnswers == \E i \in Members : beh[i] \in {"ans", "crash_post"}
 Agreement == returned # "none" => returned = verdictOf
 RaisesOnlyIfNobodyAnswered == (ppc = "raised" /\ ~ExitOnException) => ~SomeoneAnswers
 NoLoserConsumesCtrl == served # 0 => served = winner
-SolveReturns == <>(ppc \in {"idle", "sent", "done", "raised"})
+SolveReturns == \A r \in 1..Rounds : (round = r /\ ppc = "spawn") ~> (round = r /\ ppc \in {"idle", "sent", "done", "raised"})
 \* as long as one member answers, failing members never change the verdict
-AnswerIfSomeoneAnswers == (SomeoneAnswers /\ ~ExitOnException) ~> (returned = verdictOf)
+AnswerIfSomeoneAnswers == \A r \in 1..Rounds :
+    (round = r /\ ppc = "spawn" /\ SomeoneAnswers /\ ~ExitOnException) ~> (round = r /\ returned = verdictOf)
 =============================================================================
